@@ -11,6 +11,18 @@ package props
 //   reg  <hdr> <kind r|m|g> <name> <start> <end>         ##sequence-region through *Region / WriteMetaData(*Feature) / generic feature
 //   iseq <hdr> <width> <mol 0|1|2> <id> <desc> <letters>  inline sequence
 //   fl   <16 hex digits>                                 float law sample: ParseFloat(Sprintf("%v",x)) == x
+//   bedf <N> <w> <r> {<12 bed tokens>}*                  a file of BedN records: one Writer of width w, one Reader of width r,
+//        every record read (and kept) before any is looked at
+//   gfff <hdr> {<10 gff tokens>}*                        a file of features: one Writer, one Reader, likewise
+//
+//   bedx <N> <w> <12 bed tokens>                         one BedN record through a Writer of width w over an io.Writer that
+//        accepts exactly k bytes and then fails (short write + error), once for every k = 0..L (L = length of the fault-free text)
+//   gffx <hdr> <10 gff tokens>                           one feature likewise (the header, if any, goes to the same failing writer)
+//
+// Observation (bedx/gffx):  x <L> <hex of the fault-free text> {<n>/<emitted by that Write>/<e: 1 error, 0 none>/<p>}   one token per k;
+// p = 1 when all the bytes emitted are the first bytes of the fault-free text.
+//
+// Observation (bedf/gfff):  <n,...> <emitted,...> <hex of all text> [<ff:..,ff:..>] | <calls> [| <oracles>]
 //
 // Observation (bed/gff/reg/iseq):  <n reported> <n emitted by that call> <hex of all text> | <calls> | <oracles>
 // where <calls> is the outcome of every Read until io.EOF (see fioReadAll).
@@ -197,19 +209,34 @@ func fioIsNil(f feat.Feature) bool { return f == nil }
 //	eof       io.EOF; the list stops here.   more  = the cap was reached without io.EOF
 //
 // A panic inside a call is rendered as the last element "panic:<hex>".
+//
+// Every returned feature is KEPT and the calls are rendered only after the last one: a record
+// a caller holds on to must not change under a later Read (a reader that hands out storage it
+// goes on using shows as an earlier record rewritten by a later one).
 func fioReadAll(r featio.Reader, lines int) string {
-	var out []string
+	type call struct {
+		f   feat.Feature
+		err error
+		p   string
+	}
+	var kept []call
+	more := true
 	cap := lines + 3
-	for i := 0; i < cap; i++ {
+	for i := 0; i < cap && more; i++ {
 		f, err, p := fioSafeRead(r)
-		if p != "" {
-			out = append(out, "panic:"+fioHexS(p))
-			return strings.Join(out, " ")
+		kept = append(kept, call{f, err, p})
+		if p != "" || err == io.EOF {
+			more = false
 		}
+	}
+	var out []string
+	for _, c := range kept {
+		f, err := c.f, c.err
 		switch {
+		case c.p != "":
+			out = append(out, "panic:"+fioHexS(c.p))
 		case err == io.EOF && fioIsNil(f):
 			out = append(out, "eof")
-			return strings.Join(out, " ")
 		case err == nil && fioIsNil(f):
 			out = append(out, "nn")
 		case err == nil:
@@ -218,12 +245,11 @@ func fioReadAll(r featio.Reader, lines int) string {
 			out = append(out, "e:"+fioErr(err))
 		default:
 			out = append(out, "b:"+fioRec(f)+"|"+fioErr(err))
-			if err == io.EOF {
-				return strings.Join(out, " ")
-			}
 		}
 	}
-	out = append(out, "more")
+	if more {
+		out = append(out, "more")
+	}
 	return strings.Join(out, " ")
 }
 
@@ -522,6 +548,88 @@ func c02Exec(input string) string {
 			return fioWErr(err) + " " + strconv.Itoa(cnt) + " " + hx.Hex(buf.Bytes())
 		}
 		return fmt.Sprintf("%d %d %s | %s", cnt, buf.Len()-before, hx.Hex(buf.Bytes()), fioReadGff(buf.Bytes()))
+	case "bedf":
+		n, w, r := hx.Atoi(f[1]), hx.Atoi(f[2]), hx.Atoi(f[3])
+		if (len(f)-4)%12 != 0 {
+			panic("c02: bedf tokens not a multiple of twelve")
+		}
+		var buf bytes.Buffer
+		bw, err := bed.NewWriter(&buf, w)
+		if err != nil {
+			return "newwriter:" + fioErr(err)
+		}
+		var ns, ds []int
+		for i := 4; i+12 <= len(f); i += 12 {
+			before := buf.Len()
+			cnt, err := bw.Write(fioParseBedIn(f[i : i+12]).record(n))
+			if err != nil {
+				return fioWErr(err) + " " + strconv.Itoa(cnt) + " " + hx.Hex(buf.Bytes())
+			}
+			ns, ds = append(ns, cnt), append(ds, buf.Len()-before)
+		}
+		return fmt.Sprintf("%s %s %s | %s", hx.Ints(ns), hx.Ints(ds), hx.Hex(buf.Bytes()), fioReadBed(buf.Bytes(), r))
+	case "gfff":
+		hdr := f[1] == "1"
+		if (len(f)-2)%10 != 0 {
+			panic("c02: gfff tokens not a multiple of ten")
+		}
+		var buf bytes.Buffer
+		gw := gff.NewWriter(&buf, 60, hdr)
+		var ns, ds []int
+		var ffs []string
+		for i := 2; i+10 <= len(f); i += 10 {
+			g := fioParseGffIn(f[i : i+10])
+			before := buf.Len()
+			cnt, err := gw.Write(g.record())
+			if err != nil {
+				return fioWErr(err) + " " + strconv.Itoa(cnt) + " " + hx.Hex(buf.Bytes())
+			}
+			ns, ds = append(ns, cnt), append(ds, buf.Len()-before)
+			ffs = append(ffs, fioFloatText(g.score))
+		}
+		ff := "-"
+		if len(ffs) > 0 {
+			ff = strings.Join(ffs, ",")
+		}
+		return fmt.Sprintf("%s %s %s %s | %s | %s", hx.Ints(ns), hx.Ints(ds), hx.Hex(buf.Bytes()), ff,
+			fioReadGff(buf.Bytes()), fioOracles(buf.Bytes()))
+	case "bedx", "gffx":
+		var mk func(w io.Writer) (func() (int, error), error)
+		if f[0] == "bedx" {
+			n, w := hx.Atoi(f[1]), hx.Atoi(f[2])
+			b := fioParseBedIn(f[3:])
+			mk = func(sink io.Writer) (func() (int, error), error) {
+				bw, err := bed.NewWriter(sink, w)
+				if err != nil {
+					return nil, err
+				}
+				return func() (int, error) { return bw.Write(b.record(n)) }, nil
+			}
+		} else {
+			hdr := f[1] == "1"
+			g := fioParseGffIn(f[2:])
+			mk = func(sink io.Writer) (func() (int, error), error) {
+				gw := gff.NewWriter(sink, 60, hdr)
+				return func() (int, error) { return gw.Write(g.record()) }, nil
+			}
+		}
+		var full bytes.Buffer
+		wr, err := mk(&full)
+		if err != nil {
+			return "newwriter:" + fioErr(err)
+		}
+		if cnt, err := wr(); err != nil {
+			return fioWErr(err) + " " + strconv.Itoa(cnt) + " " + hx.Hex(full.Bytes())
+		}
+		out := []string{"x", strconv.Itoa(full.Len()), hx.Hex(full.Bytes())}
+		for k := 0; k <= full.Len(); k++ {
+			lw := &sioLimitWriter{limit: k}
+			wr, _ := mk(lw)
+			before := lw.buf.Len()
+			cnt, err := wr()
+			out = append(out, fmt.Sprintf("%d/%d/%s/%s", cnt, lw.buf.Len()-before, hx.B(err != nil), hx.B(bytes.HasPrefix(full.Bytes(), lw.buf.Bytes()))))
+		}
+		return strings.Join(out, " ")
 	case "fl":
 		bits, err := strconv.ParseUint(f[1], 16, 64)
 		if err != nil {
@@ -723,6 +831,80 @@ func fioName(g *hx.Gen) string {
 	}, fioText(g, ""))
 }
 
+// c02FileGen: files of several records written by one Writer and read by one Reader, every record
+// kept until the reader reached io.EOF.  BED12 files come with block counts that decrease
+// (3, 2, 1 …: a later record fits into the storage of an earlier one), increase, or are mixed;
+// GFF files with attribute lists of decreasing length.
+func c02FileGen(g *hx.Gen) {
+	k := g.Pick(2, 3, 3, 4, 5)
+	if g.Chance(0.6) {
+		N := g.Pick(3, 4, 5, 6, 12, 12, 12, 12)
+		w, r := N, N
+		if g.Chance(0.3) {
+			for {
+				w = fioWidths[g.Intn(len(fioWidths))]
+				if w <= N {
+					break
+				}
+			}
+			for {
+				r = fioWidths[g.Intn(len(fioWidths))]
+				if r <= w {
+					break
+				}
+			}
+		}
+		mode := g.Intn(3)
+		first := g.Pick(2, 3, 3, 4, 7)
+		var toks []string
+		for i := 0; i < k; i++ {
+			b := fioBed(g)
+			if len(b.name) > 100 && i > 0 {
+				b.name = b.name[:g.Pick(1, 7, 100)]
+			}
+			cnt := b.count
+			switch mode {
+			case 0: // strictly decreasing down to one block, then one block each
+				cnt = first - i
+				if cnt < 1 {
+					cnt = 1
+				}
+			case 1: // increasing
+				cnt = 1 + i
+			}
+			b.count, b.sizes, b.starts = cnt, nil, nil
+			for j := 0; j < cnt; j++ {
+				b.sizes = append(b.sizes, fioInt(g))
+				b.starts = append(b.starts, fioInt(g))
+			}
+			toks = append(toks, b.tokens())
+		}
+		g.Casef("bedf %d %d %d %s", N, w, r, strings.Join(toks, " "))
+		return
+	}
+	dec := g.Chance(0.5)
+	first := g.Pick(2, 3, 5)
+	var toks []string
+	for i := 0; i < k; i++ {
+		f := fioGff(g)
+		if len(f.attrs) > 20 && i > 0 {
+			f.attrs = f.attrs[:g.Pick(1, 2, 20)]
+		}
+		if dec {
+			cnt := first - i
+			if cnt < 0 {
+				cnt = 0
+			}
+			f.attrsNil, f.attrs = false, []gff.Attribute{}
+			for j := 0; j < cnt; j++ {
+				f.attrs = append(f.attrs, gff.Attribute{Tag: fioTag(g), Value: fioValue(g)})
+			}
+		}
+		toks = append(toks, f.tokens())
+	}
+	g.Casef("gfff %s %s", hx.B(g.Chance(0.5)), strings.Join(toks, " "))
+}
+
 func c02Gen(g *hx.Gen) {
 	// float law samples (trusted base: the assumed law parseFloat (formatFloat x) = x)
 	for _, v := range fioFloatEdges {
@@ -738,6 +920,32 @@ func c02Gen(g *hx.Gen) {
 	}
 	n := g.Scale(6000, 40000)
 	for k := 0; k < n && !g.Done(); k++ {
+		if g.Chance(0.12) {
+			c02FileGen(g)
+			continue
+		}
+		if g.Chance(0.04) {
+			// one record through a writer that fails after k bytes, for every k
+			if g.Chance(0.5) {
+				b := fioBed(g)
+				if len(b.name) > 100 {
+					b.name = b.name[:20]
+				}
+				N := fioWidths[g.Intn(len(fioWidths))]
+				w := N
+				if g.Chance(0.3) {
+					w = fioWidths[g.Intn(len(fioWidths))]
+				}
+				g.Casef("bedx %d %d %s", N, w, b.tokens())
+			} else {
+				f := fioGff(g)
+				if len(f.attrs) > 5 {
+					f.attrs = f.attrs[:5]
+				}
+				g.Casef("gffx %s %s", hx.B(g.Chance(0.5)), f.tokens())
+			}
+			continue
+		}
 		switch g.Intn(10) {
 		case 0, 1, 2, 3:
 			b := fioBed(g)
